@@ -21,8 +21,10 @@ def fn_body(src, name):
 def strip_comments(s): return re.sub(r'//[^\n]*', '', s)
 
 TOK = re.compile(r'\s*(?:(\d[\d_]*)|([A-Za-z_][A-Za-z_0-9]*(?:\.[A-Za-z_0-9]+|\(\))*)|(==|!=|<=|>=|&&|\|\||[-+*/%<>!()&*]))')
+CASTS = re.compile(r'\s+as\s+(?:usize|u64|u128)\b')      # identity / widening casts of u64 values on a 64-bit target
 def tokenize(s):
-    out, i, s = [], 0, s.strip()
+    out, i, s = [], 0, CASTS.sub('', s.strip())
+    s = re.sub(r'(?:self\.)?committee\.stake\(\s*&?\*?[\w.]+\s*\)', 'STAKE', s)
     while i < len(s):
         m = TOK.match(s, i)
         if not m: raise ValueError("cannot tokenize at: " + s[i:i+30])
@@ -31,98 +33,203 @@ def tokenize(s):
         else: out.append(('op', m.group(3)))
         i = m.end()
     return out
+# The parser builds a small AST; `norm` pushes negations into comparisons (exact over N: !(a<b) = b<=a, !(a==b) = a!=b,
+# and for unsigned values a != 0 = 0 < a), so that `ensure!(x > 0)`, `if x == 0 { return Err }` and `if !(x > 0) {..}` regenerate
+# to the same Gallina term. Unknown plain identifiers are resolved through a unique, never re-assigned `let` of the same function.
 class P:
-    def __init__(self, toks, env): self.t, self.i, self.env = toks, 0, env
+    def __init__(self, toks, env, body=None, depth=0): self.t, self.i, self.env, self.body, self.depth = toks, 0, env, body, depth
     def peek(self): return self.t[self.i] if self.i < len(self.t) else (None, None)
     def eat(self): x = self.t[self.i]; self.i += 1; return x
     def expr(self): return self.or_()
     def or_(self):
         l = self.and_()
-        while self.peek() == ('op','||'): self.eat(); l = '(%s || %s)' % (l, self.and_())
+        while self.peek() == ('op','||'): self.eat(); l = ('or', l, self.and_())
         return l
     def and_(self):
         l = self.cmp()
-        while self.peek() == ('op','&&'): self.eat(); l = '(%s && %s)' % (l, self.cmp())
+        while self.peek() == ('op','&&'): self.eat(); l = ('and', l, self.cmp())
         return l
     def cmp(self):
         l = self.add(); k, v = self.peek()
         if k == 'op' and v in ('==','!=','<','<=','>','>='):
             self.eat(); r = self.add()
-            return {'==':'(%s =? %s)','!=':'(negb (%s =? %s))','<':'(%s <? %s)','<=':'(%s <=? %s)',
-                    '>':'(%s <? %s)','>=':'(%s <=? %s)'}[v] % ((l, r) if v in ('==','!=','<','<=') else (r, l))
+            if v == '>': return ('cmp', '<', r, l)
+            if v == '>=': return ('cmp', '<=', r, l)
+            return ('cmp', v, l, r)
         return l
     def add(self):
         l = self.mul()
         while self.peek()[0] == 'op' and self.peek()[1] in '+-':
-            o = self.eat()[1]; l = '(%s %s %s)' % (l, o, self.mul())
-            if WRAP: l = '(%s %s)' % (WRAP, l)
+            o = self.eat()[1]; l = ('ar', o, l, self.mul())
         return l
     def mul(self):
         l = self.un()
         while self.peek()[0] == 'op' and self.peek()[1] in ('*','/','%'):
-            o = self.eat()[1]; r = self.un(); l = '(%s %s %s)' % (l, {'*':'*','/':'/','%':'mod'}[o], r)
-            if WRAP: l = '(%s %s)' % (WRAP, l)
+            o = self.eat()[1]; r = self.un(); l = ('ar', {'*':'*','/':'/','%':'mod'}[o], l, r)
         return l
     def un(self):
         k, v = self.peek()
-        if (k, v) == ('op','!'): self.eat(); return '(negb %s)' % self.un()
+        if (k, v) == ('op','!'): self.eat(); return ('not', self.un())
         if (k, v) in (('op','&'), ('op','*')): self.eat(); return self.un()
         if (k, v) == ('op','('): self.eat(); e = self.expr(); assert self.eat() == ('op',')'); return e
         self.eat()
-        if k == 'num': return v
+        if k == 'num': return ('atom', v)
         if k == 'id':
-            if v in ('true', 'false'): return v
-            if v not in self.env: raise ValueError("unknown identifier " + v)
-            return self.env[v]
+            if v in ('true', 'false'): return ('atom', v)
+            if v in self.env: return ('atom', self.env[v])
+            if v == 'mut': return self.un()       # `&mut x`
+            r = self.resolve(v)
+            if r is not None: return r
+            raise ValueError("unknown identifier " + v)
         raise ValueError("unexpected token %r" % (v,))
-def tr(expr, env):
-    p = P(tokenize(expr), env); e = p.expr()
-    if p.i != len(p.t): raise ValueError("trailing tokens in " + expr)
+    def resolve(self, v):
+        if self.body is None or self.depth > 3 or not re.match(r'^[A-Za-z_]\w*$', v): return None
+        ms = re.findall(r'\blet\s+(?:mut\s+)?%s\s*=\s*([^;]*);' % re.escape(v), self.body)
+        if len(ms) != 1: return None
+        if re.search(r'(?<![\w.])%s\s*(?:[-+*/|&^]=|=(?!=))' % re.escape(v), re.sub(r'\blet\s+(?:mut\s+)?%s\s*=' % re.escape(v), '', self.body)): return None   # re-assigned
+        try:
+            q = P(tokenize(ms[0]), self.env, self.body, self.depth + 1); e = q.expr()
+            return e if q.i == len(q.t) else None
+        except Exception:
+            return None
+def norm(e):
+    k = e[0]
+    if k == 'not':
+        x = norm(e[1])
+        if x[0] == 'not': return x[1]
+        if x[0] == 'cmp':
+            op, l, r = x[1], x[2], x[3]
+            if op == '<': return norm(('cmp', '<=', r, l))
+            if op == '<=': return norm(('cmp', '<', r, l))
+            if op == '==': return norm(('cmp', '!=', l, r))
+            if op == '!=': return norm(('cmp', '==', l, r))
+        if x == ('atom', 'true'): return ('atom', 'false')
+        if x == ('atom', 'false'): return ('atom', 'true')
+        return ('not', x)
+    if k == 'cmp':
+        op, l, r = e[1], norm(e[2]), norm(e[3])
+        if op == '!=' and r == ('atom', '0'): return ('cmp', '<', r, l)      # unsigned: x != 0  <->  0 < x
+        if op == '!=' and l == ('atom', '0'): return ('cmp', '<', l, r)
+        if op == '<=' and l == ('atom', '1'): return ('cmp', '<', ('atom', '0'), r)   # 1 <= x  <->  0 < x
+        return ('cmp', op, l, r)
+    if k in ('and', 'or'): return (k, norm(e[1]), norm(e[2]))
+    if k == 'ar': return ('ar', e[1], norm(e[2]), norm(e[3]))
     return e
+def show(e):
+    k = e[0]
+    if k == 'atom': return e[1]
+    if k == 'not': return '(negb %s)' % show(e[1])
+    if k == 'and': return '(%s && %s)' % (show(e[1]), show(e[2]))
+    if k == 'or': return '(%s || %s)' % (show(e[1]), show(e[2]))
+    if k == 'cmp':
+        return {'==':'(%s =? %s)','!=':'(negb (%s =? %s))','<':'(%s <? %s)','<=':'(%s <=? %s)'}[e[1]] % (show(e[2]), show(e[3]))
+    if k == 'ar':
+        t = '(%s %s %s)' % (show(e[2]), e[1], show(e[3]))
+        return '(%s %s)' % (WRAP, t) if WRAP else t
+def tr(expr, env, body=None, negate=False):
+    p = P(tokenize(expr), env, body); e = p.expr()
+    if p.i != len(p.t): raise ValueError("trailing tokens in " + expr)
+    if negate: e = ('not', e)
+    return show(norm(e))
 
-core = strip_comments(open(REPO + '/consensus/src/core.rs').read())
-cfg = strip_comments(open(REPO + '/consensus/src/config.rs').read())
-mcfg = strip_comments(open(REPO + '/mempool/src/config.rs').read())
+# ---- source normalisation (textual, meaning-preserving): `if C { return Err(E); }` is what `ensure!(!(C), E);` expands to;
+# a type annotation on a `let` does not matter to the decision expressions ----
+def norm_src(s):
+    s = strip_comments(s)
+    s = re.sub(r'\bif\s+([^{};]+?)\s*\{\s*return\s+Err\(\s*((?:[^(){};]|\((?:[^(){};]|\([^(){};]*\))*\))*?)\s*\)\s*;\s*\}',
+               lambda m: 'ensure!(!(%s), %s);' % (m.group(1).strip(), m.group(2).strip()), s)
+    s = re.sub(r'\blet\s+(mut\s+)?([A-Za-z_]\w*)\s*:\s*[^=;{}]+?=(?!=)', lambda m: 'let %s%s =' % (m.group(1) or '', m.group(2)), s)
+    return s
+def block_after(body, pos):
+    """text of the `{...}` block that opens at or after pos"""
+    i = body.index('{', pos); depth, j = 0, i
+    while j < len(body):
+        if body[j] == '{': depth += 1
+        elif body[j] == '}':
+            depth -= 1
+            if depth == 0: return body[i+1:j]
+        j += 1
+    return body[i+1:]
+def inline_calls(src, body, me, depth=0):
+    """replace `self.f(args)` by the body of `fn f` of the same file (one level; used only when a site is not found in the plain body)"""
+    def rep(m):
+        f = m.group(1)
+        if f == me: return m.group(0)
+        b, _ = fn_body(src, f)
+        return m.group(0) if b is None else '{ %s }' % b
+    return re.sub(r'\bself\s*\.\s*([A-Za-z_]\w*)\s*\((?:[^()]|\([^()]*\))*\)(?:\s*\.await)?', rep, body)
+def find_site(src, fn, patterns, nth=0, body=None):
+    """first pattern (of a list of alternatives) that matches in the body of fn, then in the body with callees inlined"""
+    if body is None: body, line = fn_body(src, fn)
+    else: line = 0
+    if body is None: return None, None, line
+    if isinstance(patterns, str): patterns = [patterns]
+    for b in (body, inline_calls(src, body, fn)):
+        for pat in patterns:
+            ms = list(re.finditer(pat, b, re.S))
+            if len(ms) > nth: return ms[nth], b, line
+    return None, body, line
+
+core = norm_src(open(REPO + '/consensus/src/core.rs').read())
+cfg = norm_src(open(REPO + '/consensus/src/config.rs').read())
+mcfg = norm_src(open(REPO + '/mempool/src/config.rs').read())
 defs, untied = [], []
 sites = []
-def site(name, params, src, fname, fn, pattern, env, pre=None, default=None, wrap=None):
+def site(name, params, src, fname, fn, pattern, env, pre=None, default=None, wrap=None, role=None):
+    """role: optional function of the text of the block guarded by the condition -> True (the condition is the guard as modelled),
+    False (the source tests the negation: e.g. an early `return`/`continue` instead of the guarded action), None (unrecognised)"""
     global WRAP
     WRAP = wrap
-    body, line = fn_body(src, fn)
-    m = re.search(pattern, body, re.S) if body else None
+    m, body, line = find_site(src, fn, pattern)
     text = m.group(1).strip() if m else None
     try:
         if text is None: raise ValueError("site not found")
+        neg = False
+        if role:
+            pol = role(block_after(body, m.end(1)))
+            if pol is None: raise ValueError("the branch guarded by `%s` is not recognised" % text)
+            neg = not pol
         t2 = pre(text) if pre else text
-        g = tr(t2, env)
-        defs.append("(* %s: fn %s (line %d): `%s` *)\nDefinition %s %s := %s." % (fname, fn, line, text, name, params, g))
+        g = tr(t2, env, body, negate=neg)
+        defs.append("(* %s: fn %s (line %d): `%s`%s *)\nDefinition %s %s := %s." % (fname, fn, line, text, ' (negated: guards the early exit)' if neg else '', name, params, g))
         sites.append({'name': name, 'file': fname, 'fn': fn, 'line': line, 'rust': text, 'coq': g, 'changed': g != default})
     except Exception as e:
         untied.append((name, str(e)))
         sites.append({'name': name, 'file': fname, 'fn': fn, 'line': line, 'rust': text, 'coq': default, 'untied': str(e)})
         defs.append("(* UNTIED %s: %s *)\nDefinition %s %s := %s." % (name, e, name, params, default))
+    WRAP = None
+
+# ---- polarity of a guard: what the guarded branch does decides whether the source tests the modelled guard or its negation ----
+def role_exit_pos(blk):      # modelled guard = "leave early": positive when the branch returns/continues at once
+    return True if re.match(r'\s*(return|continue|break)\b', blk) else False
+def role_action(*words):     # modelled guard = "do the action": positive when the branch mentions it, negative when the branch leaves at once
+    def f(blk):
+        if any(w in blk for w in words): return True
+        if re.match(r'\s*(return|continue|break)\b', blk): return False
+        return None
+    return f
 STENV = {'self.round':'st_round','self.high_qc.round':'st_hq','self.last_voted_round':'st_lv','self.last_committed_round':'st_lc'}
 def E(d):
     x = dict(STENV); x.update(d); return x
 venv = E({'block.round':'b_round','block.qc.round':'b_qc_round','tc.round':'tc_round','MAXHQ':'max_hq'})
 VP = '(b_round b_qc_round tc_round max_hq : N) (st_round st_hq st_lv st_lc : N) : bool'
-site('g_safety_rule_1',VP,core,'core.rs','make_vote',r'let\s+safety_rule_1\s*=\s*(.*?);',venv,default='(st_lv <? b_round)')
-site('g_safety_rule_2',VP,core,'core.rs','make_vote',r'let\s+mut\s+safety_rule_2\s*=\s*(.*?);',venv,default='((b_qc_round + 1) =? b_round)')
-site('g_can_extend',VP,core,'core.rs','make_vote',r'let\s+mut\s+can_extend\s*=\s*(.*?);',venv,default='((tc_round + 1) =? b_round)')
-site('g_can_extend_hq',VP,core,'core.rs','make_vote',r'can_extend\s*&=\s*(.*?);',venv,
+site('g_safety_rule_1',VP,core,'core.rs','make_vote',[r'let\s+safety_rule_1\s*=\s*(.*?);', r'let\s+(?:mut\s+)?\w+\s*=\s*([^;]*self\.last_voted_round[^;]*);'],venv,default='(st_lv <? b_round)')
+site('g_safety_rule_2',VP,core,'core.rs','make_vote',[r'let\s+mut\s+safety_rule_2\s*=\s*(.*?);', r'let\s+mut\s+\w+\s*=\s*([^;]*block\.qc\.round[^;]*);'],venv,default='((b_qc_round + 1) =? b_round)')
+site('g_can_extend',VP,core,'core.rs','make_vote',[r'let\s+mut\s+can_extend\s*=\s*(.*?);', r'let\s+mut\s+\w+\s*=\s*([^;]*\btc\.round[^;]*);'],venv,default='((tc_round + 1) =? b_round)')
+site('g_can_extend_hq',VP,core,'core.rs','make_vote',[r'can_extend\s*&=\s*(.*?);', r'\b\w+\s*&=\s*([^;]*high_qc_rounds[^;]*);'],venv,
      pre=lambda t: re.sub(r'\*?tc\.high_qc_rounds\(\)\.iter\(\)\.max\(\)\.expect\("[^"]*"\)','MAXHQ',t),default='(max_hq <=? b_qc_round)')
 site('g_commit_skip','(b_round : N) (st_round st_hq st_lv st_lc : N) : bool',core,'core.rs','commit',r'if\s+([^{}]*?)\s*\{\s*return\s+Ok',E({'block.round':'b_round'}),default='(b_round <=? st_lc)')
 site('g_commit_walk','(lcr p_round : N) : bool',core,'core.rs','commit',r'while\s+(.*?)\s*\{',{'self.last_committed_round':'lcr','parent.round':'p_round'},default='((lcr + 1) <? p_round)')
-site('g_update_high_qc','(q_round : N) (st_round st_hq st_lv st_lc : N) : bool',core,'core.rs','update_high_qc',r'if\s+(.*?)\s*\{',E({'qc.round':'q_round'}),default='(st_hq <? q_round)')
+site('g_update_high_qc','(q_round : N) (st_round st_hq st_lv st_lc : N) : bool',core,'core.rs','update_high_qc',r'if\s+(.*?)\s*\{',E({'qc.round':'q_round'}),default='(st_hq <? q_round)',role=role_action('self.high_qc'))
 site('g_vote_stale','(m_round : N) (st_round st_hq st_lv st_lc : N) : bool',core,'core.rs','handle_vote',r'if\s+([^{}]*?)\s*\{\s*return\s+Ok',E({'vote.round':'m_round'}),default='(m_round <? st_round)')
 site('g_timeout_stale','(m_round : N) (st_round st_hq st_lv st_lc : N) : bool',core,'core.rs','handle_timeout',r'if\s+([^{}]*?)\s*\{\s*return\s+Ok',E({'timeout.round':'m_round'}),default='(m_round <? st_round)')
 site('g_tc_stale','(m_round : N) (st_round st_hq st_lv st_lc : N) : bool',core,'core.rs','handle_tc',r'if\s+([^{}]*?)\s*\{\s*return\s+Ok',E({'tc.round':'m_round'}),default='(m_round <? st_round)')
-site('g_advance_guard','(r : N) (st_round st_hq st_lv st_lc : N) : bool',core,'core.rs','advance_round',r'if\s+(.*?)\s*\{',E({'round':'r'}),default='(r <? st_round)')
+site('g_advance_guard','(r : N) (st_round st_hq st_lv st_lc : N) : bool',core,'core.rs','advance_round',r'if\s+(.*?)\s*\{',E({'round':'r'}),default='(r <? st_round)',role=role_exit_pos)
 site('g_advance_next','(r : N) (st_round st_hq st_lv st_lc : N) : N',core,'core.rs','advance_round',r'self\.round\s*=\s*(.*?);',E({'round':'r'}),default='(r + 1)')
 site('g_two_chain','(b0_round b1_round b_round : N) : bool',core,'core.rs','process_block',r'if\s+([^{}]*?)\s*\{\s*self\.mempool_driver\.cleanup',{'b0.round':'b0_round','b1.round':'b1_round','block.round':'b_round'},default='((b0_round + 1) =? b1_round)')
 site('g_round_gate','(b_round b_qc_round : N) (st_round st_hq st_lv st_lc : N) : bool',core,'core.rs','process_block',r'if\s+([^{}]*?)\s*\{\s*return\s+Ok\(\(\)\);\s*\}\s*(?://[^\n]*\n\s*)*if\s+let\s+Some\(vote\)',E({'block.round':'b_round','block.qc.round':'b_qc_round'}),default='(negb (b_round =? st_round))')
-site('g_quorum_consensus','(total : N) : N',cfg,'consensus/config.rs','quorum_threshold',r';\s*([^;]*?)\s*$',{'total_votes':'total'},default='(((2 * total) / 3) + 1)')
-site('g_quorum_mempool','(total : N) : N',mcfg,'mempool/config.rs','quorum_threshold',r';\s*([^;]*?)\s*$',{'total_votes':'total'},default='(((2 * total) / 3) + 1)')
+site('g_quorum_consensus','(total : N) : N',cfg,'consensus/config.rs','quorum_threshold',r'(?:;|\})\s*([^;{}]*?)\s*$',{'total_votes':'total'},default='(((2 * total) / 3) + 1)')
+site('g_quorum_mempool','(total : N) : N',mcfg,'mempool/config.rs','quorum_threshold',r'(?:;|\})\s*([^;{}]*?)\s*$',{'total_votes':'total'},default='(((2 * total) / 3) + 1)')
 
 
 # ---- impl-scoped sites (messages.rs has several `fn verify`) ----
@@ -138,48 +245,55 @@ def impl_body(src, ty):
             if depth == 0: return src[i+1:j], src[:i].count('\n') + 1
         j += 1
     return None, 0
-def isite(name, params, srcfile, fname, ty, fn, pattern, env, default, pre=None, nth=0):
+def isite(name, params, srcfile, fname, ty, fn, pattern, env, default, pre=None, nth=0, role=None):
     """site inside `impl ty { fn fn(...) {...} }`; nth selects among several matches of the pattern"""
     global WRAP
     WRAP = None
     src = srcfile
     ib, iline = impl_body(src, ty)
-    body, line = fn_body(ib, fn) if ib else (None, 0)
-    ms = list(re.finditer(pattern, body, re.S)) if body else []
-    text = ms[nth].group(1).strip() if len(ms) > nth else None
+    fb, line = fn_body(ib, fn) if ib else (None, 0)
+    m, body, _ = find_site(ib or '', fn, pattern, nth, body=fb) if fb else (None, None, 0)
+    text = m.group(1).strip() if m else None
     try:
         if text is None: raise ValueError("site not found")
-        g = tr(pre(text) if pre else text, env)
-        defs.append("(* %s: impl %s, fn %s (line %d): `%s` *)\nDefinition %s %s := %s." % (fname, ty, fn, iline + line - 1, text, name, params, g))
+        neg = False
+        if role:
+            pol = role(block_after(body, m.end(1)))
+            if pol is None: raise ValueError("the branch guarded by `%s` is not recognised" % text)
+            neg = not pol
+        g = tr(pre(text) if pre else text, env, body, negate=neg)
+        defs.append("(* %s: impl %s, fn %s (line %d): `%s`%s *)\nDefinition %s %s := %s." % (fname, ty, fn, iline + line - 1, text, ' (negated: guards the early exit)' if neg else '', name, params, g))
         sites.append({'name': name, 'file': fname, 'fn': '%s::%s' % (ty, fn), 'line': iline + line - 1, 'rust': text, 'coq': g, 'changed': g != default})
     except Exception as e:
         untied.append((name, str(e)))
         defs.append("(* UNTIED %s: %s *)\nDefinition %s %s := %s." % (name, e, name, params, default))
         sites.append({'name': name, 'file': fname, 'fn': '%s::%s' % (ty, fn), 'line': iline + line - 1, 'rust': text, 'coq': default, 'untied': str(e)})
-msgs = strip_comments(open(REPO + '/consensus/src/messages.rs').read())
-aggr = strip_comments(open(REPO + '/consensus/src/aggregator.rs').read())
-lead = strip_comments(open(REPO + '/consensus/src/leader.rs').read())
-qwsrc = strip_comments(open(REPO + '/mempool/src/quorum_waiter.rs').read())
-bmsrc = strip_comments(open(REPO + '/mempool/src/batch_maker.rs').read())
+msgs = norm_src(open(REPO + '/consensus/src/messages.rs').read())
+aggr = norm_src(open(REPO + '/consensus/src/aggregator.rs').read())
+lead = norm_src(open(REPO + '/consensus/src/leader.rs').read())
+qwsrc = norm_src(open(REPO + '/mempool/src/quorum_waiter.rs').read())
+bmsrc = norm_src(open(REPO + '/mempool/src/batch_maker.rs').read())
 ENS = r'ensure!\(\s*([^,]*?)\s*,'
-isite('g_block_stake', '(s : N) : bool', msgs, 'messages.rs', 'Block', 'verify', ENS, {'voting_rights': 's'}, '(0 <? s)')
+isite('g_block_stake', '(s : N) : bool', msgs, 'messages.rs', 'Block', 'verify', ENS, {'voting_rights': 's', 'STAKE': 's'}, '(0 <? s)')
 isite('g_vote_stake', '(s : N) : bool', msgs, 'messages.rs', 'Vote', 'verify', ENS, {'STAKE': 's'}, '(0 <? s)', pre=lambda t: re.sub(r'committee\.stake\(&self\.author\)', 'STAKE', t))
 isite('g_timeout_stake', '(s : N) : bool', msgs, 'messages.rs', 'Timeout', 'verify', ENS, {'STAKE': 's'}, '(0 <? s)', pre=lambda t: re.sub(r'committee\.stake\(&self\.author\)', 'STAKE', t))
-isite('g_qc_entry_stake', '(s : N) : bool', msgs, 'messages.rs', 'QC', 'verify', ENS, {'voting_rights': 's'}, '(0 <? s)', nth=1)
+isite('g_qc_entry_stake', '(s : N) : bool', msgs, 'messages.rs', 'QC', 'verify', ENS, {'voting_rights': 's', 'STAKE': 's'}, '(0 <? s)', nth=1)
 isite('g_qc_weight', '(weight quorum : N) : bool', msgs, 'messages.rs', 'QC', 'verify', ENS, {'weight': 'weight', 'QUORUM': 'quorum'}, '(quorum <=? weight)', pre=lambda t: t.replace('committee.quorum_threshold()', 'QUORUM'), nth=2)
-isite('g_tc_entry_stake', '(s : N) : bool', msgs, 'messages.rs', 'TC', 'verify', ENS, {'voting_rights': 's'}, '(0 <? s)', nth=1)
+isite('g_tc_entry_stake', '(s : N) : bool', msgs, 'messages.rs', 'TC', 'verify', ENS, {'voting_rights': 's', 'STAKE': 's'}, '(0 <? s)', nth=1)
 isite('g_tc_weight', '(weight quorum : N) : bool', msgs, 'messages.rs', 'TC', 'verify', ENS, {'weight': 'weight', 'QUORUM': 'quorum'}, '(quorum <=? weight)', pre=lambda t: t.replace('committee.quorum_threshold()', 'QUORUM'), nth=2)
 QT = lambda t: t.replace('committee.quorum_threshold()', 'QUORUM').replace('self.committee.QUORUM', 'QUORUM')
-isite('g_qcm_threshold', '(weight quorum : N) : bool', aggr, 'aggregator.rs', 'QCMaker', 'append', r'if\s+(self\.weight[^{]*?)\s*\{', {'self.weight': 'weight', 'QUORUM': 'quorum'}, '(quorum <=? weight)', pre=QT)
+isite('g_qcm_threshold', '(weight quorum : N) : bool', aggr, 'aggregator.rs', 'QCMaker', 'append', r'if\s+(self\.weight[^{]*?)\s*\{', {'self.weight': 'weight', 'QUORUM': 'quorum'}, '(quorum <=? weight)', pre=QT, role=role_action('self.weight =', 'Some('))
 isite('g_qcm_reset', ': N', aggr, 'aggregator.rs', 'QCMaker', 'append', r'self\.weight\s*=\s*([^;]*?);', {}, '0')
-isite('g_tcm_threshold', '(weight quorum : N) : bool', aggr, 'aggregator.rs', 'TCMaker', 'append', r'if\s+(self\.weight[^{]*?)\s*\{', {'self.weight': 'weight', 'QUORUM': 'quorum'}, '(quorum <=? weight)', pre=QT)
+isite('g_tcm_threshold', '(weight quorum : N) : bool', aggr, 'aggregator.rs', 'TCMaker', 'append', r'if\s+(self\.weight[^{]*?)\s*\{', {'self.weight': 'weight', 'QUORUM': 'quorum'}, '(quorum <=? weight)', pre=QT, role=role_action('self.weight =', 'Some('))
 isite('g_tcm_reset', ': N', aggr, 'aggregator.rs', 'TCMaker', 'append', r'self\.weight\s*=\s*([^;]*?);', {}, '0')
 isite('g_agg_keep_votes', '(k round : N) : bool', aggr, 'aggregator.rs', 'Aggregator', 'cleanup', r'self\.votes_aggregators\.retain\(\s*\|[^|]*\|\s*([^)]*?)\s*\)', {'k': 'k', 'round': 'round'}, '(round <=? k)')
 isite('g_agg_keep_timeouts', '(k round : N) : bool', aggr, 'aggregator.rs', 'Aggregator', 'cleanup', r'self\.timeouts_aggregators\.retain\(\s*\|[^|]*\|\s*([^)]*?)\s*\)', {'k': 'k', 'round': 'round'}, '(round <=? k)')
-isite('g_leader_index', '(round size : N) : N', lead, 'leader.rs', 'RRLeaderElector', 'get_leader', r'keys\[\s*(.*?)\s*\]', {'round': 'round', 'SIZE': 'size'}, '(round mod size)', pre=lambda t: t.replace(' as usize', '').replace('self.committee.size()', 'SIZE'))
-isite('g_qw_threshold', '(total quorum : N) : bool', qwsrc, 'quorum_waiter.rs', 'QuorumWaiter', 'run', r'if\s+(total_stake[^{]*?)\s*\{', {'total_stake': 'total', 'QUORUM': 'quorum'}, '(quorum <=? total)', pre=lambda t: t.replace('self.committee.quorum_threshold()', 'QUORUM'))
-isite('g_batch_full', '(size batch_size : N) : bool', bmsrc, 'batch_maker.rs', 'BatchMaker', 'run', r'if\s+(self\.current_batch_size[^{]*?)\s*\{', {'self.current_batch_size': 'size', 'self.batch_size': 'batch_size'}, '(batch_size <=? size)')
-isite('g_timer_seals', '(is_empty : bool) (size batch_size : N) : bool', bmsrc, 'batch_maker.rs', 'BatchMaker', 'run', r'\(\)\s*=\s*&mut\s+timer\s*=>\s*\{\s*if\s+([^{}]*?)\s*\{', {'EMPTY': 'is_empty', 'self.current_batch_size': 'size', 'self.batch_size': 'batch_size'}, '(negb is_empty)', pre=lambda t: t.replace('self.current_batch.is_empty()', 'EMPTY'))
+isite('g_leader_index', '(round size : N) : N', lead, 'leader.rs', 'RRLeaderElector', 'get_leader', r'keys\[\s*(.*?)\s*\]', {'round': 'round', 'SIZE': 'size', 'keys.len()': 'size', 'self.committee.authorities.len()': 'size'}, '(round mod size)', pre=lambda t: t.replace('self.committee.size()', 'SIZE'))
+_qwacc = re.search(r'let\s+mut\s+(\w+)\s*=\s*self\.stake\s*;', qwsrc)
+_qwacc = _qwacc.group(1) if _qwacc else 'total_stake'
+isite('g_qw_threshold', '(total quorum : N) : bool', qwsrc, 'quorum_waiter.rs', 'QuorumWaiter', 'run', r'if\s+([^{};]*quorum_threshold\(\)[^{};]*?)\s*\{', {_qwacc: 'total', 'QUORUM': 'quorum'}, '(quorum <=? total)', pre=lambda t: t.replace('self.committee.quorum_threshold()', 'QUORUM'), role=role_action('tx_batch', '.send('))
+isite('g_batch_full', '(size batch_size : N) : bool', bmsrc, 'batch_maker.rs', 'BatchMaker', 'run', r'if\s+(self\.current_batch_size[^{]*?)\s*\{', {'self.current_batch_size': 'size', 'self.batch_size': 'batch_size'}, '(batch_size <=? size)', role=role_action('seal'))
+isite('g_timer_seals', '(is_empty : bool) (size batch_size : N) : bool', bmsrc, 'batch_maker.rs', 'BatchMaker', 'run', r'\(\)\s*=\s*&mut\s+timer\s*=>\s*\{\s*if\s+([^{}]*?)\s*\{', {'EMPTY': 'is_empty', 'self.current_batch_size': 'size', 'self.batch_size': 'batch_size'}, '(negb is_empty)', pre=lambda t: t.replace('self.current_batch.is_empty()', 'EMPTY'), role=role_action('seal'))
 # seal(): is the length test evaluated before the index `tx[0]` (benchmark build)? `a && b` evaluates a first
 _sb, _sl = fn_body(bmsrc, 'seal')
 _mf = re.search(r'\.filter\(\|tx\|\s*(.*?)\)\s*\.filter_map', _sb or '', re.S)
@@ -282,10 +396,10 @@ except Exception as e:
 
 
 # ---- mempool synchronizer: garbage-collection and retry tests ----
-msync_src = strip_comments(open(REPO + '/mempool/src/synchronizer.rs').read())
+msync_src = norm_src(open(REPO + '/mempool/src/synchronizer.rs').read())
 isite('g_ms_gc_skip', '(round gc_depth : N) : bool', msync_src, 'mempool/synchronizer.rs', 'Synchronizer', 'run', r'if\s+(self\.round[^{}]*?self\.gc_depth[^{}]*?)\s*\{\s*continue', {'self.round': 'round', 'self.gc_depth': 'gc_depth'}, '(round <? gc_depth)')
-isite('g_ms_gc_round', '(round gc_depth : N) : N', msync_src, 'mempool/synchronizer.rs', 'Synchronizer', 'run', r'let\s+mut\s+gc_round\s*=\s*([^;]*?);', {'self.round': 'round', 'self.gc_depth': 'gc_depth'}, '(round - gc_depth)')
-isite('g_ms_gc_keep', '(r gc_round : N) : bool', msync_src, 'mempool/synchronizer.rs', 'Synchronizer', 'run', r'self\.pending\.retain\(\s*\|[^|]*\|\s*([^)]*?)\s*\)', {'r': 'r', 'gc_round': 'gc_round'}, '(gc_round <? r)', pre=lambda t: t.replace('&mut ', ''))
+isite('g_ms_gc_round', '(round gc_depth : N) : N', msync_src, 'mempool/synchronizer.rs', 'Synchronizer', 'run', r'let\s+(?:mut\s+)?gc_round\s*=\s*([^;]*?);', {'self.round': 'round', 'self.gc_depth': 'gc_depth'}, '(round - gc_depth)')
+isite('g_ms_gc_keep', '(r gc_round : N) : bool', msync_src, 'mempool/synchronizer.rs', 'Synchronizer', 'run', r'self\.pending\.retain\(\s*\|[^|]*\|\s*([^)]*?)\s*\)', {'r': 'r', 'gc_round': 'gc_round'}, '(gc_round <? r)', pre=lambda t: t.replace('&mut ', '').replace('&', ''))
 isite('g_ms_retry_due', '(timestamp delay now : N) : bool', msync_src, 'mempool/synchronizer.rs', 'Synchronizer', 'run', r'if\s+(timestamp[^{}]*?)\s*\{', {'timestamp': 'timestamp', 'DELAY': 'delay', 'now': 'now'}, '((timestamp + delay) <? now)', pre=lambda t: t.replace('(self.sync_retry_delay as u128)', 'DELAY').replace('self.sync_retry_delay as u128', 'DELAY'))
 
 
@@ -308,8 +422,7 @@ for nm, ty, field in (('g_block_exempt_is_genesis', 'Block', 'qc'), ('g_timeout_
 # ---- commit(): the deque discipline, read off the source (which end each push/pop uses, whether the head is
 # pushed before or after the walk, and the optional stop test inside the walk) ----
 def flag(name, fn, pattern, mapping, default, what):
-    body, line = fn_body(core, fn)
-    m = re.search(pattern, body, re.S) if body else None
+    m, body, line = find_site(core, fn, pattern)
     if m and m.group(1) in mapping:
         v = mapping[m.group(1)]
         defs.append("(* core.rs: fn %s (line %d): %s: `%s` *)\nDefinition %s : bool := %s." % (fn, line, what, m.group(0).strip(), name, v))
@@ -325,6 +438,10 @@ flag('g_commit_pop_back', 'commit', r'to_commit\.pop_(front|back)\(\s*\)', {'fro
 _b, _l = fn_body(core, 'commit')
 _mh = re.search(r'to_commit\.push_(?:front|back)\(\s*block\.clone\(\)\s*\)', _b or '')
 _mw = re.search(r'\bwhile\b', _b or '')
+if _b and not (_mh and _mw):
+    _b = inline_calls(core, _b, 'commit')
+    _mh = re.search(r'to_commit\.push_(?:front|back)\(\s*block\.clone\(\)\s*\)', _b)
+    _mw = re.search(r'\bwhile\b', _b)
 if _mh and _mw:
     v = 'true' if _mh.start() < _mw.start() else 'false'
     defs.append("(* core.rs: fn commit (line %d): is the head pushed before the ancestor walk? *)\nDefinition g_commit_head_first : bool := %s." % (_l, v))
@@ -340,8 +457,8 @@ if _ms:
 else:
     defs.append("(* core.rs: fn commit (line %d): no early `break` in the ancestor walk *)\nDefinition g_commit_stop (anc_round lcr : N) : bool := false." % _l)
     sites.append({'name': 'g_commit_stop', 'file': 'core.rs', 'fn': 'commit', 'line': _l, 'rust': '(no break in the walk)', 'coq': 'false', 'changed': True})
-site('g_quorum_consensus_u32','(total : N) : N',cfg,'consensus/config.rs','quorum_threshold',r';\s*([^;]*?)\s*$',{'total_votes':'total'},default='(u32 ((u32 ((u32 (2 * total)) / 3)) + 1))',wrap='u32')
-site('g_quorum_mempool_u32','(total : N) : N',mcfg,'mempool/config.rs','quorum_threshold',r';\s*([^;]*?)\s*$',{'total_votes':'total'},default='(u32 ((u32 ((u32 (2 * total)) / 3)) + 1))',wrap='u32')
+site('g_quorum_consensus_u32','(total : N) : N',cfg,'consensus/config.rs','quorum_threshold',r'(?:;|\})\s*([^;{}]*?)\s*$',{'total_votes':'total'},default='(u32 ((u32 ((u32 (2 * total)) / 3)) + 1))',wrap='u32')
+site('g_quorum_mempool_u32','(total : N) : N',mcfg,'mempool/config.rs','quorum_threshold',r'(?:;|\})\s*([^;{}]*?)\s*$',{'total_votes':'total'},default='(u32 ((u32 ((u32 (2 * total)) / 3)) + 1))',wrap='u32')
 hdr = "(* GENERATED by regen.py from %s -- do not edit *)\nFrom Coq Require Import List NArith Bool.\nImport ListNotations.\nOpen Scope N_scope.\nDefinition u32 (x : N) : N := x mod 4294967296.\n\n" % REPO
 new = hdr + "\n".join(defs) + "\n"
 old = open(OUT).read() if os.path.exists(OUT) else None
@@ -371,6 +488,16 @@ def panic_inventory():
             for m in re.finditer(r'\b(panic|unreachable|unimplemented|todo|assert|assert_eq)!\s*\(', t): found.append('%s! in `%s`' % (m.group(1), re.sub(r'\s+', ' ', t)[:70]))
             for m in re.finditer(r'[A-Za-z_0-9\)\]]\[(?!\s*u8\s*;)([^\[\]"]+)\]', t):
                 if re.match(r'^\s*(vec!|#)', t) or 'vec![' in t[:m.start()+1][-5:]: continue
+                # a constant index or range into a local fixed-size array `let [mut] X = [v; N]` within its length cannot panic
+                mi = re.search(r'([A-Za-z_]\w*)$', t[:m.start()+1]); mr = re.match(r'^\s*(\d*)\s*(\.\.=?)?\s*(\d*)\s*$', m.group(1))
+                if mi and re.match(r'^\s*[A-Za-z_]\w*\s*$', m.group(1)):
+                    # `A[i]` with `let i = <e> % A.len();`: in range whenever A is non-empty (the same precondition as the `%` itself)
+                    if re.search(r'\blet\s+%s\s*(?::[^=;]*)?=\s*[^;]*%%\s*%s\.len\(\)\s*;' % (re.escape(m.group(1).strip()), re.escape(mi.group(1))), src): continue
+                if mi and mr:
+                    md = re.search(r'\blet\s+(?:mut\s+)?%s\s*(?::[^=;]*)?=\s*\[[^;\]]*;\s*(\d+)\s*\]\s*;' % re.escape(mi.group(1)), src)
+                    if md:
+                        n = int(md.group(1)); lo = int(mr.group(1) or 0); hi = int(mr.group(3)) if mr.group(3) else (n if mr.group(2) else lo)
+                        if (mr.group(2) and lo <= hi <= n and mr.group(2) == '..') or (not mr.group(2) and lo < n): continue
                 found.append('index [%s] in `%s`' % (m.group(1).strip(), re.sub(r'\s+', ' ', t)[:70]))
             for x in found:
                 key = '%s::%s::%s' % (rel, fn, x)
